@@ -39,6 +39,12 @@ func drive(w *bufio.Writer) {
 		if line == "" || strings.HasPrefix(line, "#") {
 			continue
 		}
+		if h.timeouts >= 8 {
+			// several waits for "what must happen" have timed out: the run is a failure already,
+			// do not spend minutes on the rest
+			fmt.Fprintln(w, "skipped")
+			continue
+		}
 		if line == "reset" {
 			h.cleanup()
 			nh := newH()
